@@ -150,11 +150,25 @@ theorem remSetLen_atomic {s v p m} {l : List Nat} (F : Focus s v p .rem (.bytes 
       obtain ⟨m1, hrem, _⟩ := F.shrink n l.length (by omega) (by simp [encode])
       rw [hrem] at h; cases h
 
+/-- Node kinds whose ops are proved atomic / canonical-on-error under any refusal schedule (grows as
+the per-container lemmas land; `set`/`map`: see `MachineMapAtomic.lean`). -/
+def atomicShape : Shape → Bool
+  | .fixed _ => true
+  | .list _ _ => true
+  | .str _ => true
+  | .rem => true
+  | .struct _ _ => true
+  | .enum _ _ => true
+  | _ => false
+
+/-- The (node kind, op) pairs covered by `node_atomic`. -/
+def SupportedA (t : Shape) (op : Op) : Bool := atomicShape t || genericOp op
+
 /-- **Atomicity of every covered single-container op under any refusal schedule**: if the call returns
 an error (other than the known-finding class `initFail`), the bytes, `orig` and the schedule are what
 they were before the call. -/
 theorem node_atomic {s v p t u m} (F : Focus s v p t u m) (sm : Small m) (op : Op)
-    (hsup : Supported t op = true) (hnc : composite op = false) (m' : Mem) (e : Err)
+    (hsup : SupportedA t op = true) (hnc : composite op = false) (m' : Mem) (e : Err)
     (h : applyAt ⟨s, p⟩ t (offsetOf s v p) op m = (m', .error e)) :
     m'.bytes = m.bytes ∧ m'.orig = m.orig ∧ m'.refuse = m.refuse := by
   have same : ∀ {m'' : Mem} {e' : Err}, (m, (Except.error e' : Except Err Ret)) = (m'', .error e) →
@@ -172,13 +186,13 @@ theorem node_atomic {s v p t u m} (F : Focus s v p t u m) (sm : Small m) (op : O
       split at h
       · exact setDataInner_atomic F sm _ m' e (unitRes_err_inv h)
       · exact same h
-  · have hc : coveredShape t = true := by
-      simp only [Supported, Bool.or_eq_true] at hsup
+  · have hc : atomicShape t = true := by
+      simp only [SupportedA, Bool.or_eq_true] at hsup
       rcases hsup with h | h
       · exact h
       · exact absurd h hg
     have hv := F.sub.valid
-    cases t <;> simp [coveredShape] at hc <;> cases u <;> simp only [valid, Bool.false_eq_true] at hv
+    cases t <;> simp [atomicShape] at hc <;> cases u <;> simp only [valid, Bool.false_eq_true] at hv
     · -- fixed
       cases op <;> simp [genericOp] at hg <;> simp only [applyAt] at h <;> first
         | exact same h
@@ -275,7 +289,7 @@ theorem strSet_err_canonical {s v p m} {lw : Nat} {l : List Nat} (F : Focus s v 
 /-- Whole-value version of `node_atomic`. -/
 theorem applyOp_atomic (s : Shape) (v : Val) (g : Good s v) (m : Mem) (hm : m.bytes = encode s v)
     (sm : Small m) (p : List Step) (op : Op)
-    (hsup : ∀ t u, resolve s v p = .ok (t, u) → Supported t op = true) (hnc : composite op = false)
+    (hsup : ∀ t u, resolve s v p = .ok (t, u) → SupportedA t op = true) (hnc : composite op = false)
     (m' : Mem) (e : Err) (h : applyOp s p op m = (m', .error e)) :
     m'.bytes = m.bytes ∧ m'.orig = m.orig ∧ m'.refuse = m.refuse := by
   have hloc := locate_encode p s v g [] [] 0 rfl
